@@ -419,7 +419,7 @@ func c21Ops(n int, allParents bool) []c21Op {
 		}
 	}
 	for i := 0; i < n; i++ {
-		if allParents || i == 0 || i == 2 { // quick: the un-referenced Update only for T0 and T2
+		if i == 0 || i == 2 { // the un-referenced Update only for T0 and T2
 			ops = append(ops, c21Op{kind: "upN", i: i})
 		}
 	}
@@ -427,8 +427,8 @@ func c21Ops(n int, allParents bool) []c21Op {
 		ops = append(ops, c21Op{kind: "deref", i: i})
 	}
 	for i := 0; i < n; i++ {
-		// quick: the bare Reference only for T0 and T2 (Update(Ti<-empty)+Ref on a held root adds a reference for the others)
-		if allParents || i == 0 || i == 2 {
+		// the bare Reference only for T0 and T2 (Update(Ti<-empty)+Ref on a held root adds a reference for the others)
+		if i == 0 || i == 2 {
 			ops = append(ops, c21Op{kind: "ref", i: i})
 		}
 	}
@@ -1141,10 +1141,10 @@ func TestVerif_C21(t *testing.T) {
 			depth  int
 		}
 		for _, e := range []explo{
-			{c21ExploreName, nil, depth},
 			// pre-populated start state: T0 referenced, the older half of its nodes (children first) flushed
 			// by Cap while their parents stay cached; re-inserting such a child is one Update away
 			{c21ExploreName + "@T0-half-capped", []string{"Update(T0<-empty)+Ref", "Cap(size/2)"}, depth - 1},
+			{c21ExploreName, nil, depth},
 		} {
 			if r.Expired() {
 				break
